@@ -214,7 +214,9 @@ func c3Enum(root *zzverif.Rng, maxLayers int, emit func(*c3Case)) {
 					// malformed redirects
 					{c3Pass("noloc307")}, {c3Pass("noloc301")}, {c3Pass("badstatus301")}, {c3Pass("badstatus303")}, {c3Pass("badstatus308")},
 					{c3Pass("badloc")}, {c3Pass("badloc"), c3Pass("badloc"), c3K("neterr")}, {c3Pass("redirectdead")},
-					{c3K("follow")}, {c3K("follow"), c3K("follow"), c3Pass("noloc307")}, c3RepeatReply(c3K("follow"), 11), c3RepeatReply(c3K("follow"), 12),
+					{c3K("follow")}, {c3K("follow"), c3K("follow"), c3Pass("noloc307")}, c3RepeatReply(c3K("follow"), 10), c3RepeatReply(c3K("follow"), 11), c3RepeatReply(c3K("follow"), 12),
+					append(c3RepeatReply(c3K("follow"), 10), c3Pass("redirect200")), append(c3RepeatReply(c3K("follow"), 10), c3Pass("badstatus303")),
+					append(c3RepeatReply(c3K("follow"), 10), c3Pass("noloc301")), append(c3RepeatReply(c3K("follow"), 10), c3Pass("redirectdead")),
 					append(c3RepeatReply(c3K("follow"), 23), c3Pass("redirect200"))} {
 					faults = append(faults, fault{stream: "d", reps: reps})
 				}
